@@ -121,8 +121,11 @@ def location(project, source, position, filename=None, debug=False):
     def unmarked(n):
         # positions come from the source with the cursor mark inserted: a
         # definition on the cursor line after the cursor is shifted by it
+        # (only those: the same file analysed from disk, when it imports
+        # itself, has unmarked positions)
         loc = n.declared_at
-        if n.filename == source.filename and loc[0] == position[0] and loc[1] > position[1]:
+        marked = getattr(getattr(n, 'scope', None), 'top', None) is scope
+        if marked and loc[0] == position[0] and loc[1] > position[1]:
             loc = loc[0], loc[1] - len(SOURCE_MARK)
         return _loc(loc, n.filename)
 
